@@ -324,6 +324,13 @@ func (ci *ConstructorInvoker) invokeWithRecovery(info *ConstructorInfo, args []r
 		}
 	}()
 
+	if info.IsFunc && info.Type.IsVariadic() {
+		// The variadic parameter is a dependency on the slice type: the resolved slice
+		// is passed as it is, not as one element of the variadic list
+		results = info.Value.CallSlice(args)
+		return results, nil
+	}
+
 	results = info.Value.Call(args)
 	return results, nil
 }
